@@ -97,4 +97,9 @@ PROPS = {
         "trusted": ["protobuf-go's decoder (its capacity behaviour is observed on every decoded field and compared with Wire.v's decode: nil when empty, capacity >= 8 otherwise)", "the harness calls the handlers in process after a Marshal/Unmarshal round trip; the gRPC transport, interceptors and HTTP/2 framing are not on the path (C19 drives them)", "panics inside libraries and goroutine-level effects are observed only on the generated requests; resource exhaustion is not exercised (participant counts are capped at 2^22 by the generator)"],
         "assumptions": ["wf_req: every byte field of the request came out of the decoder", "partial: see Properties/C20.v"],
     },
+    "C19": {
+        "relation": "Corr.CheckTls.tmismatches (for every method of every registered gRPC service called over a real connection to a daemon built by testing/daemon.New with every kind of caller credential: served / refused at the transport = admitted (pinned ca) of Tls.v) - ties C19_gate / C19_identity_is_verified to the configured server; the identity used for permissions is probed with each valid certificate",
+        "trusted": ["crypto/tls, crypto/x509 and gRPC: the theorems are about the decision table of the client-authentication mode, pool and minimum version the server configures, not about the TLS implementation", "the harness mints certificates itself (self-signed, under another authority with the same name, and - with the configured authority's test key from testing/resources - expired, server-use-only and fresh valid ones)", "'served' means the call reached a handler (any response, or an error whose status code is not Unavailable)"],
+        "assumptions": ["partial: see Properties/C19.v"],
+    },
 }
